@@ -216,7 +216,29 @@ func execRunFull(spec *OpSpec, call *Call, order *simrt.OrderSource, budget int6
 }
 
 func sameOutcome(a, b *runOutcome) bool {
-	return equalStrings(a.canon, b.canon) && (a.res.Err == "") == (b.res.Err == "") && (a.res.Panic == "") == (b.res.Panic == "")
+	if (a.res.Err == "") != (b.res.Err == "") || (a.res.Panic == "") != (b.res.Panic == "") {
+		return false
+	}
+	if a.res.Err != "" || a.res.Panic != "" {
+		// both calls failed: what accompanies an error is not specified (the library itself
+		// returns what it had converted so far in some places and nothing in others), so a
+		// partial list that differs is not a difference of the result
+		return true
+	}
+	return equalStrings(a.canon, b.canon)
+}
+
+// coversBase: every index of the base list occurs in the index map.
+func coversBase(idx []int, n int) bool {
+	seen := make([]bool, n)
+	cnt := 0
+	for _, i := range idx {
+		if i >= 0 && i < n && !seen[i] {
+			seen[i] = true
+			cnt++
+		}
+	}
+	return cnt == n
 }
 
 func getList(c *Call, name string) int {
@@ -706,6 +728,13 @@ func shrinkC16(rp *C16Replay) (*C16Replay, string) {
 					c.ListIdx[k] = append([]int{}, v...)
 				}
 				c.ListIdx[name] = append(c.ListIdx[name][:i], c.ListIdx[name][i+1:]...)
+				if !coversBase(c.ListIdx[name], getList(c.Base, name)) {
+					// the perturbed list must stay a permutation (with repetitions) of the whole base
+					// list: without this entry an element of the base list would be missing, and the
+					// two calls would no longer be about the same set
+					i++
+					continue
+				}
 				if fails(&c) {
 					cur = &c
 					steps++
